@@ -231,13 +231,15 @@ def wrap_derivative(obj, log):
     orig = obj.derivative
 
     def w(velocity, separation, *charges):
-        r = orig(velocity, separation, *charges)
         flat = []
         for c in charges:
             flat += list(c) if isinstance(c, tuple) else [c]
-        log.append({"vel": [f2b(x) for x in velocity],
-                    "sep": "cell" if hasattr(separation, "cell_min") else [f2b(x) for x in separation],
-                    "charges": [f2b(c) for c in flat], "res": f2b(r)})
+        rec = {"vel": [f2b(x) for x in velocity],
+               "sep": "cell" if hasattr(separation, "cell_min") else [f2b(x) for x in separation],
+               "charges": [f2b(c) for c in flat]}      # the arguments as passed (before the call)
+        r = orig(velocity, separation, *charges)
+        rec["res"] = f2b(r)
+        log.append(rec)
         return r
     obj.derivative = w
 
